@@ -3,6 +3,7 @@ tiling and never index out of bounds."""
 from vx.extract import Unit
 from . import common
 from .lexing import VOCAB as LEX_VOCAB, TILES_LEMMAS
+from .number import SPEC as NUMBER_SPEC
 
 NAME = 'document'
 D = 'harper-core/src/document.rs'
@@ -18,6 +19,11 @@ impl Clone for Token {
 impl TokenKind {
     pub fn is_word(&self) -> (r: bool) ensures r == (self is Word) { matches!(self, TokenKind::Word(..)) }
     pub fn is_period(&self) -> (r: bool) ensures r == (self matches TokenKind::Punctuation(Punctuation::Period)) { matches!(self, TokenKind::Punctuation(Punctuation::Period)) }
+    pub fn as_mut_number(&mut self) -> (r: Option<&mut Number>)
+        ensures (*old(self)) is Number <==> r.is_some(),
+                r matches Some(p) ==> *p == (*old(self))->Number_0 && *final(self) == TokenKind::Number(*final(p)),
+                r is None ==> *final(self) == *old(self),
+    { match self { TokenKind::Number(v) => Some(v), _ => None } }
 }
 '''
 
@@ -117,19 +123,6 @@ pub proof fn lemma_tiles_push(t: Seq<Token>, x: Token, upto: int)
         else { assert(u[i] == t[i]); assert(u[i + 1] == x); }
     }
     if t.len() > 0 { assert(u[0] == t[0]); }
-}
-pub proof fn lemma_tiles_mono(t: Seq<Token>, n: int, i: int, j: int)
-    requires tiles(t, n), 0 <= i <= j < t.len(),
-    ensures t[i].span.start <= t[j].span.start, t[i].span.end <= t[j].span.end,
-            i < j ==> t[i].span.end <= t[j].span.start,
-    decreases j - i,
-{
-    if i < j {
-        lemma_tiles_mono(t, n, i, j - 1);
-        assert(t[j - 1].span.end == t[j - 1 + 1].span.start);
-        assert(t[j - 1].span.start < t[j - 1].span.end);
-        assert(t[j].span.start < t[j].span.end);
-    }
 }
 pub proof fn lemma_tiles_bnd(orig: Seq<Token>, n: int, j: int)
     requires tiles(orig, n), 0 <= j < orig.len(),
@@ -341,6 +334,135 @@ SPACES = dict(
     })
 
 
+NUMSUF_LEMMAS = r'''
+pub open spec fn starts_ok(rs: &Vec<usize>, toks: Seq<Token>, upto: usize) -> bool {
+    &&& forall|k: int| 0 <= k < rs@.len() ==> #[trigger] rs@[k] < upto && rs@[k] + 1 < toks.len()
+            && toks[rs@[k] as int].kind is Number && toks[rs@[k] + 1].kind is Word
+    &&& forall|a: int, b: int| 0 <= a < b < rs@.len() ==> #[trigger] rs@[a] + 2 <= #[trigger] rs@[b]
+}
+// ---- condense_indices: each listed index absorbs the stretch_len-1 tokens after it ----
+pub open spec fn in_stretch(ind: Seq<usize>, st: int, i: int) -> bool { exists|k: int| 0 <= k < ind.len() && #[trigger] ind[k] < i && i < ind[k] + st }
+pub open spec fn stretched(old: Seq<Token>, ind: Seq<usize>, st: int) -> Seq<Token> {
+    Seq::new(old.len(), |i: int| if in_rm(ind, i) && i + st - 1 < old.len() {
+        Token { span: Span { start: old[i].span.start, end: old[i + st - 1].span.end }, kind: old[i].kind }
+    } else { old[i] })
+}
+pub open spec fn keepf<T>(s: Seq<T>, p: spec_fn(int) -> bool, f: int) -> Seq<T>
+    decreases f
+{
+    if f <= 0 { Seq::empty() } else {
+        let q = keepf(s, p, f - 1);
+        if p(f - 1) { q } else { q.push(s[f - 1]) }
+    }
+}
+pub open spec fn pairs_ok(ind: Seq<usize>, len: int) -> bool {
+    &&& forall|k: int| 0 <= k < ind.len() ==> #[trigger] ind[k] + 2 <= len
+    &&& forall|a: int, b: int| 0 <= a < b < ind.len() ==> #[trigger] ind[a] + 2 <= #[trigger] ind[b]
+}
+pub proof fn lemma_pairs_sorted(ind: Seq<usize>, len: int, a: int, b: int)
+    requires pairs_ok(ind, len), 0 <= a < b < ind.len(),
+    ensures ind[a] + 2 <= ind[b],
+{ }
+// merging <number><suffix-word> pairs keeps the tokens tiling the text
+pub proof fn lemma_pairs_tile(orig: Seq<Token>, cur: Seq<Token>, ind: Seq<usize>, n: int, f: int)
+    requires tiles(orig, n), cur.len() == orig.len(), forall|i: int| 0 <= i < orig.len() ==> (#[trigger] cur[i]).span == orig[i].span,
+        pairs_ok(ind, orig.len() as int), 0 <= f <= orig.len(), !in_stretch(ind, 2, f),
+    ensures tiles(keepf(stretched(cur, ind, 2), |i: int| in_stretch(ind, 2, i), f), bnd(orig, n, f)),
+    decreases f,
+{
+    let p = |i: int| in_stretch(ind, 2, i);
+    let s2 = stretched(cur, ind, 2);
+    if f == 0 {
+        assert(keepf(s2, p, 0) =~= Seq::<Token>::empty());
+        if orig.len() > 0 { assert(orig[0].span.start == 0); }
+    } else if in_stretch(ind, 2, f - 1) {
+        // f-1 is the partner of the start f-2
+        let k = choose|k: int| 0 <= k < ind.len() && #[trigger] ind[k] < f - 1 && f - 1 < ind[k] + 2;
+        assert(ind[k] == f - 2);
+        assert(in_rm(ind, f - 2));
+        // f-2 is itself not a partner
+        assert(!in_stretch(ind, 2, f - 2)) by {
+            if in_stretch(ind, 2, f - 2) {
+                let j = choose|j: int| 0 <= j < ind.len() && #[trigger] ind[j] < f - 2 && f - 2 < ind[j] + 2;
+                assert(ind[j] == f - 3);
+                if j < k { lemma_pairs_sorted(ind, orig.len() as int, j, k); } else if k < j { lemma_pairs_sorted(ind, orig.len() as int, k, j); }
+            }
+        }
+        lemma_pairs_tile(orig, cur, ind, n, f - 2);
+        assert(p(f - 1)); assert(!p(f - 2));
+        assert(keepf(s2, p, f) == keepf(s2, p, f - 1));
+        assert(keepf(s2, p, f - 1) == keepf(s2, p, f - 2).push(s2[f - 2]));
+        lemma_tiles_bnd(orig, n, f - 2); lemma_tiles_bnd(orig, n, f - 1);
+        assert(s2[f - 2].span.start == orig[f - 2].span.start && s2[f - 2].span.end == orig[f - 1].span.end);
+        lemma_tiles_push(keepf(s2, p, f - 2), s2[f - 2], bnd(orig, n, f - 2));
+    } else {
+        // f-1 is kept as it is: it cannot be a start, because then f would be its partner
+        assert(!in_rm(ind, f - 1)) by {
+            if in_rm(ind, f - 1) {
+                let k = choose|k: int| 0 <= k < ind.len() && #[trigger] ind[k] as int == f - 1;
+                assert(ind[k] + 2 <= orig.len());
+                assert(ind[k] < f && f < ind[k] + 2);
+                assert(in_stretch(ind, 2, f));
+            }
+        }
+        lemma_pairs_tile(orig, cur, ind, n, f - 1);
+        assert(!p(f - 1));
+        assert(keepf(s2, p, f) == keepf(s2, p, f - 1).push(s2[f - 1]));
+        assert(s2[f - 1] == cur[f - 1]);
+        lemma_tiles_bnd(orig, n, f - 1);
+        lemma_tiles_push(keepf(s2, p, f - 1), s2[f - 1], bnd(orig, n, f - 1));
+    }
+}
+
+'''
+
+CONDENSE_INDICES = dict(
+    external_body=True, props=['C02'],
+    requires=['stretch_len >= 1',
+              'forall|k: int| 0 <= k < indices@.len() ==> #[trigger] indices@[k] + stretch_len <= old(self).tokens@.len()',
+              'forall|a: int, b: int| 0 <= a < b < indices@.len() ==> #[trigger] indices@[a] + stretch_len <= #[trigger] indices@[b]'],
+    ensures=['final(self).source@ == old(self).source@',
+             'final(self).tokens@ == keepf(stretched(old(self).tokens@, indices@, stretch_len as int), |i: int| in_stretch(indices@, stretch_len as int, i), old(self).tokens@.len() as int)'],
+    assumed='each listed index absorbs the stretch_len-1 tokens after it (span end extended, absorbed tokens deleted, everything else unchanged); body uses peekable(): outside Verus; checked by rac:condense_indices (bounded)')
+
+NUMSUF = dict(
+    props=['C01', 'C02', 'C17'],
+    requires=['tiles(old(self).tokens@, old(self).source@.len() as int)', 'old(self).tokens@.len() + 2 <= usize::MAX'],
+    ensures=['tiles(final(self).tokens@, old(self).source@.len() as int)', 'final(self).source@ == old(self).source@'],
+    proofs=[dict(before='for idx', kind='ghost', text='let ghost orig = self.tokens@;'),
+            dict(before='for idx', kind='ghost', text='let ghost n = self.source@.len() as int;'),
+            dict(before='for idx', text='lemma_tiles_in_bounds_ordered(orig, n);'),
+            dict(before='if let Some(found_suffix)', text='assert(span_in(orig[idx + 1].span, n));'),
+            dict(before='self.tokens[idx]', kind='ghost', text='let ghost t0 = self.tokens@;'),
+            dict(before='self.tokens[idx]', kind='ghost', text='let ghost rs0 = replace_starts@;'),
+            dict(after='replace_starts.push', text='''
+                        assert(self.tokens@[idx as int].kind is Number);
+                        assert forall|i: int| 0 <= i < orig.len() && i != idx implies self.tokens@[i] == t0[i] by { }
+                        assert forall|a: int, b: int| 0 <= a < b < replace_starts@.len() implies #[trigger] replace_starts@[a] + 2 <= #[trigger] replace_starts@[b] by {
+                            if b == rs0.len() {
+                                assert(t0[rs0[a] + 1].kind is Word);
+                                assert(t0[idx as int].kind is Number);
+                                assert(rs0[a] < idx);
+                            } else { assert(rs0[a] + 2 <= rs0[b]); }
+                        }
+                        assert forall|k: int| 0 <= k < replace_starts@.len() implies #[trigger] replace_starts@[k] < __k && replace_starts@[k] + 1 < orig.len()
+                            && self.tokens@[replace_starts@[k] as int].kind is Number && self.tokens@[replace_starts@[k] + 1].kind is Word by {
+                            if k < rs0.len() {
+                                assert(t0[rs0[k] + 1].kind is Word); assert(t0[rs0[k] as int].kind is Number);
+                                assert(rs0[k] + 1 != idx);
+                            }
+                        }'''),
+            dict(before='self.condense_indices', text='assert(pairs_ok(replace_starts@, orig.len() as int)); assert(!in_stretch(replace_starts@, 2, orig.len() as int)); lemma_pairs_tile(orig, self.tokens@, replace_starts@, n, orig.len() as int);'),
+            ],
+    loops={1: dict(desugar='R3', decreases='__end - __k',
+                   invariant=['__end == orig.len() - 1', '__k <= __end', 'orig.len() >= 2', 'orig.len() + 2 <= usize::MAX',
+                              'self.tokens@.len() == orig.len()', 'self.source@ == old(self).source@', 'n == self.source@.len()',
+                              'tiles(orig, n)', 'toks_in(orig, n)',
+                              'forall|i: int| 0 <= i < orig.len() ==> (#[trigger] self.tokens@[i]).span == orig[i].span',
+                              'starts_ok(&replace_starts, self.tokens@, __k)'])},
+)
+
+
 DOTTED = dict(
     props=['C01', 'C02'],
     requires=['tiles(old(self).tokens@, old(self).source@.len() as int)', 'old(self).tokens@.len() + 2 <= usize::MAX'],
@@ -379,7 +501,14 @@ def build(repo):
     U = Unit(NAME, repo)
     U.header = common.HEADER
     common.add_span(U, ['len', 'get_content', 'try_get_content', 'is_empty'], props=('C02',))
-    U.raw('#[verifier::external_body] pub struct WordMetadata { _p: u8 }\n#[verifier::external_body] pub struct Currency { _p: u8 }\n' + common.OPAQUE_NUMBER, name='opaque-types')
+    U.raw('#[verifier::external_body] pub struct WordMetadata { _p: u8 }\n#[verifier::external_body] pub struct Currency { _p: u8 }\n'
+          '#[verifier::external_body] #[verifier::reject_recursive_types(T)] pub struct OrderedFloat<T> { _p: T }', name='opaque-types')
+    U.item('harper-core/src/number.rs', 'enum NumberSuffix', derive=('Clone', 'Copy', 'PartialEq', 'Eq'))
+    U.item('harper-core/src/number.rs', 'struct Number', derive=())
+    U.raw(NUMBER_SPEC.split('pub open spec fn suffix_text')[0], name='spec:suffix_of')
+    U.impl('harper-core/src/number.rs', 'impl NumberSuffix', {
+        'from_chars': dict(result='r', props=['C17', 'C02'],
+                           ensures=['chars@.len() < 2 ==> r.is_none()', 'chars@.len() >= 2 ==> r == suffix_of(chars@[0], chars@[1])'])})
     U.item('harper-core/src/punctuation.rs', 'struct Quote', derive=())
     U.item('harper-core/src/punctuation.rs', 'enum Punctuation', derive=())
     U.item('harper-core/src/token_kind.rs', 'enum TokenKind', derive=())
@@ -393,10 +522,16 @@ def build(repo):
     U.raw(WS, name='lemmas:ws', props=['C01'])
     U.raw(DOT_LEMMAS, name='lemmas:dotted-initialisms', props=['C02'])
     U.raw(SPACES_LEMMAS, name='lemmas:condense-spaces', props=['C02'])
+    U.raw(TILES_LEMMAS, name='lemmas:tiles', props=['C02'])
+    U.raw(NUMSUF_LEMMAS, name='lemmas:number-suffixes', props=['C02', 'C17'])
     U.impl(D, 'impl Document', {
         'condense_newlines': condense_ws(),
         'condense_spaces': SPACES,
         'condense_dotted_initialisms': DOTTED,
-    }, nth=0)
+        'get_span_content': dict(result='r', props=['C02'], requires=['span.start <= span.end', 'span.end <= self.sp_source().len()'],
+                                 ensures=['span.start < span.end ==> r@ == self.sp_source().subrange(span.start as int, span.end as int)', 'span.start == span.end ==> r@.len() == 0']),
+        'condense_indices': CONDENSE_INDICES,
+        'condense_number_suffixes': NUMSUF,
+    }, nth=0, extra_members='    pub closed spec fn sp_source(&self) -> Seq<char> { self.source@ }')
     U.raw(common.FOOTER)
     return U
